@@ -30,6 +30,14 @@ fn main() {
     // Injected panics (store kill) and caught product panics must not spam stderr; they are
     // recorded by the executor.
     std::panic::set_hook(Box::new(|info| {
+        // The codec world reports where a decoder panicked.
+        if let Some(loc) = info.location() {
+            let _ = worlds::codec::LAST_PANIC_LOCATION.try_with(|l| {
+                if let Ok(mut l) = l.try_borrow_mut() {
+                    *l = Some(format!("{}:{}", loc.file(), loc.line()));
+                }
+            });
+        }
         if std::env::var("VERIF_SHOW_PANICS").is_ok() {
             eprintln!("panic: {info}");
         }
@@ -145,6 +153,10 @@ fn main() {
             if let Some(e) = out.harness_error {
                 println!("HARNESS-ERROR {e}");
             }
+        }
+        "codec-child" => {
+            // Hidden: one codec case in a process of its own (the decoder under test may abort it).
+            std::process::exit(worlds::codec::child_main());
         }
         "worlds" => {
             for w in checks::world_names() {
